@@ -31,9 +31,23 @@ import os
 import re as _re
 import sys
 
-sys.path.insert(0, os.path.dirname(os.path.abspath(__file__)))
-import astutil_G4 as U  # noqa: E402
-from astutil_G4 import expect, only, unwrap  # noqa: E402
+
+
+def _load_util():
+    """astutil_G4.py next to this file, loaded by path (sys.path is left alone)"""
+    import importlib.util
+    if "astutil_G4" in sys.modules:
+        return sys.modules["astutil_G4"]
+    spec = importlib.util.spec_from_file_location(
+        "astutil_G4", os.path.join(os.path.dirname(os.path.abspath(__file__)), "astutil_G4.py"))
+    mod = importlib.util.module_from_spec(spec)
+    sys.modules["astutil_G4"] = mod
+    spec.loader.exec_module(mod)
+    return mod
+
+
+U = _load_util()
+expect, only, unwrap = U.expect, U.only, U.unwrap
 from translate import TranslateError, generator, parse, txt, txt_list, HEADER  # noqa: E402
 
 SRC = "osaca/parser/parser_AArch64.py"
